@@ -171,6 +171,9 @@ class Task(object):
                     'ofiles']:
 
             val = task_dict.get(key, None)
+            if key == 'state':
+                # a CANCELED task keeps its state unless the update is DONE
+                val = target
             if val is not None:
                 setattr(self, "_%s" % key, val)
 
